@@ -137,9 +137,9 @@ class Plant:
         for c in spec.get("electric", []):
             obj = build_electric_component(c)
             self.by_name[c["name"]] = obj
-            self.by_label[("electric", fname(c), c["swb"])] = c["name"]
+            self.by_label[("electric", fname(c), c["swb"], obj.type.name)] = c["name"]
             if c["kind"] == "pti_pto":
-                self.by_label[("mechanical", fname(c), c.get("shaft_line", 1))] = c["name"]
+                self.by_label[("mechanical", fname(c), c.get("shaft_line", 1), obj.type.name)] = c["name"]
             ecomps.append(obj)
         if order is not None:
             ecomps = [ecomps[i] for i in order]
@@ -153,7 +153,7 @@ class Plant:
             obj = self.by_name[c["name"]] if c["kind"] == "pti_pto_ref" else build_mechanical_component(c)
             self.by_name[c["name"]] = obj
             if c["kind"] != "pti_pto_ref":
-                self.by_label[("mechanical", fname(c), c["shaft_line"])] = c["name"]
+                self.by_label[("mechanical", fname(c), c["shaft_line"], obj.type.name)] = c["name"]
             mcomps.append(obj)
         morder = spec.get("mech_order")
         if morder is not None:
@@ -171,9 +171,9 @@ class Plant:
             self.system = MechanicalPropulsionSystemWithElectricPowerSystem(spec.get("name", "plant"), self.electric, self.mechanical)
 
 
-    def find(self, side, feems_name, node):
-        """The component FEEMS calls `feems_name` on switchboard / shaft line `node` of the electric / mechanical side."""
-        key = self.by_label.get((side, feems_name, int(node)))
+    def find(self, side, feems_name, node, type_name):
+        """The component of type `type_name` FEEMS calls `feems_name` on switchboard / shaft line `node` of the electric / mechanical side."""
+        key = self.by_label.get((side, feems_name, int(node), type_name))
         return None if key is None else self.by_name[key]
 
 
@@ -184,7 +184,12 @@ LABELS = {"generator": "Generator", "genset": "Genset", "fuel_cell_system": "Fue
           "supercap_system": "Supercapacitor", "main_engine": "Main engine", "mech_load": "Propeller"}
 
 
-def relabel(spec):
+CATEGORY = {"generator": "source", "genset": "source", "fuel_cell_system": "source", "coges": "source", "other_load": "consumer", "drive": "consumer",
+            "pti_pto": "pti_pto", "battery": "storage", "battery_system": "storage", "supercap": "storage", "supercap_system": "storage",
+            "main_engine": "source", "mech_load": "consumer"}
+
+
+def relabel(spec, style="per-kind"):
     """Gives every component the name a user would: "Genset 1", "Genset 2" … counted per switchboard / shaft line, so that
     the same name appears on several switchboards / shaft lines (FEEMS requires unique names only within one category of
     one switchboard / shaft line). A PTI/PTO sits on both a switchboard and a shaft line: its number is free on both."""
@@ -197,12 +202,15 @@ def relabel(spec):
             nodes.append(("swb", c["swb"]))
         if "shaft_line" in c:
             nodes.append(("line", c["shaft_line"]))
-        base = LABELS[c["kind"]]
+        # "per-category": plain numbers, so that a source, a consumer and a storage unit of one switchboard share a name
+        # (names need only be unique within one category of a switchboard / shaft line)
+        base = LABELS[c["kind"]] if style == "per-kind" else "No."
+        key = base if style == "per-kind" else CATEGORY[c["kind"]]
         k = 1
-        while any((base, k, nd) in used for nd in nodes):
+        while any((key, k, nd) in used for nd in nodes):
             k += 1
         for nd in nodes:
-            used.add((base, k, nd))
+            used.add((key, k, nd))
         c["label"] = f"{base} {k}"
     return spec
 
